@@ -1,6 +1,7 @@
 import FxVerif.Model.C18
 import FxVerif.Proofs.C18P
 import FxVerif.Proofs.C18T
+import FxVerif.Proofs.C18R4
 /-!
 # C18 — a tolerated failed sub-step leaves none of its own partial effects
 
@@ -407,20 +408,20 @@ theorem execute_claim_precompile_failure (env : Env) (hp : NoPanic env)
 exactly core's own bookkeeping and `WriteAcknowledgement` called with an UNSUCCESSFUL acknowledgement (synchronous
 acknowledgement; `WriteAcknowledgement` itself succeeds) -/
 theorem ibc_recv_failure_outcome_prog (env : Env) (hp : NoPanic env)
-    (hsync : env.cond "RecvPacket: ack != nil" 0 = true) (hsync' : env.cond "RecvPacket: ack == nil" 0 = false)
+    (hsync' : env.cond "RecvPacket: ack == nil" 0 = false)
     (hw : env.ok "k.ChannelKeeper.WriteAcknowledgement" 0 = true)
     (hfail : 2 ∈ (run env recvPacketProg).2.failed) :
     (run env recvPacketProg).1 = .ret true ∧ (run env recvPacketProg).2.outer = ibcDesignated :=
-  ibc_fail env hp hsync hsync' hw hfail
+  ibc_fail env hp hsync' hw hfail
 
 theorem ibc_recv_failure_outcome_denote {S : Type} (eff : Eff S) (cond : String → Nat → Bool) (iters : Nat → Nat → Nat)
     (s : S) (hp : ∀ name i, (eff name i).panics = false)
-    (hsync : cond "RecvPacket: ack != nil" 0 = true) (hsync' : cond "RecvPacket: ack == nil" 0 = false)
+    (hsync' : cond "RecvPacket: ack == nil" 0 = false)
     (hw : (eff "k.ChannelKeeper.WriteAcknowledgement" 0).failAt = none)
     (hfail : 2 ∈ (run (eff.env cond iters) recvPacketProg).2.failed) :
     denote eff (run (eff.env cond iters) recvPacketProg).2.outer s = denote eff ibcDesignated s := by
   have h := ibc_recv_failure_outcome_prog (eff.env cond iters) (fun name i => hp name i)
-    (by simpa [Eff.env] using hsync) (by simpa [Eff.env] using hsync') (by simp [Eff.env, hw]) hfail
+    (by simpa [Eff.env] using hsync') (by simp [Eff.env, hw]) hfail
   rw [h.2]
 
 /-! ### complete outcome of every boundary: either nothing failed and everything is committed, or exactly the designated outcome -/
@@ -480,21 +481,21 @@ theorem bridge_call_in_vm_error_of_any_kind (env : Env) (hp : NoPanic env)
 the follow-up fails at any of their points → bookkeeping + UNSUCCESSFUL acknowledgement only; otherwise everything is
 committed and the acknowledgement written is a SUCCESSFUL one -/
 theorem ibc_recv_outcome_total (env : Env) (hp : NoPanic env) (hr : ibcReached env)
-    (hsync : env.cond "RecvPacket: ack != nil" 0 = true) (hsync' : env.cond "RecvPacket: ack == nil" 0 = false)
+    (hsync' : env.cond "RecvPacket: ack == nil" 0 = false)
     (hw : env.ok "k.ChannelKeeper.WriteAcknowledgement" 0 = true) :
     IbcOutcome env (run env recvPacketProg) :=
-  ibc_total env hp hr hsync hsync' hw
+  ibc_total env hp hr hsync' hw
 
 /-- the memo call fails inside the EVM with ANY kind of VM error, or `CallEVM` returns an error -/
 theorem ibc_recv_vm_error_of_any_kind (env : Env) (hp : NoPanic env) (hr : ibcReached env)
-    (hsync : env.cond "RecvPacket: ack != nil" 0 = true) (hsync' : env.cond "RecvPacket: ack == nil" 0 = false)
+    (hsync' : env.cond "RecvPacket: ack == nil" 0 = false)
     (hw : env.ok "k.ChannelKeeper.WriteAcknowledgement" 0 = true)
     (hmemo : env.cond "Keeper.OnRecvPacket: len(data.Memo) > 0" 0 = true) (hjson : env.ok "k.cdc.UnmarshalInterfaceJSON" 0 = true)
     (hfail : env.ok "k.evmKeeper.CallEVM" 0 = false ∨ env.evm "k.evmKeeper.CallEVM" 0 ≠ .ok) :
     (run env recvPacketProg).1 = .ret true ∧ (run env recvPacketProg).2.outer = ibcDesignated := by
   have hf : ibcAppFails env ∨ ibcHookFails env :=
     Or.inr (Or.inr (Or.inr (Or.inr ⟨hmemo, hjson, Or.inr (Or.inr hfail)⟩)))
-  obtain ⟨h1, h2⟩ := ibc_total env hp hr hsync hsync' hw
+  obtain ⟨h1, h2⟩ := ibc_total env hp hr hsync' hw
   refine ⟨h1, ?_⟩
   rcases h2 with ⟨_, ho⟩ | ⟨hn, _⟩
   · exact ho
@@ -603,11 +604,11 @@ theorem bridge_call_in_designated_is_stripped_run (env : Env) (hp : NoPanic env)
     · exact ho
 
 theorem ibc_recv_designated_is_stripped_run (env : Env) (hp : NoPanic env) (hr : ibcReached env)
-    (hsync : env.cond "RecvPacket: ack != nil" 0 = true) (hsync' : env.cond "RecvPacket: ack == nil" 0 = false)
+    (hsync' : env.cond "RecvPacket: ack == nil" 0 = false)
     (hw : env.ok "k.ChannelKeeper.WriteAcknowledgement" 0 = true) (hf : ibcAppFails env ∨ ibcHookFails env) :
     (run env recvPacketProg).2.outer = (run env (strip 2 recvPacketProg)).2.outer := by
-  rw [ibc_strip env hp hr hsync hsync' hw hf]
-  obtain ⟨_, h2⟩ := ibc_total env hp hr hsync hsync' hw
+  rw [ibc_strip env hp hr hsync' hw hf]
+  obtain ⟨_, h2⟩ := ibc_total env hp hr hsync' hw
   rcases h2 with ⟨_, ho⟩ | ⟨hn, _⟩
   · exact ho
   · exact absurd hf hn
@@ -644,6 +645,67 @@ theorem inventory_matches_programs :
   decide
 
 end Round3
+
+
+/-! ## round 4: the gov block's designated outcome regenerated, IBC receive without the synchronous-acknowledgement
+hypothesis, the executeClaim transaction without a hypothesis on result-less calls -/
+
+section Round4
+open FxVerif.Model.C18P FxVerif.Proofs.C18P FxVerif.Proofs.C18T FxVerif.Proofs.C18R4 FxVerif.Model.C18Inv
+
+/-- **a block of proposals, the designated outcome REGENERATED** (any number of proposals, any mix of passed / failed /
+rejected / expedited ones, the failure at any message index, by error or recovered panic): what `EndBlocker`'s walk
+leaves on the outer context, with the handler writes removed, is EXACTLY what the same regenerated program leaves when
+the message handlers (the leaf calls on store branch 2, `cached_calls_of_each_boundary`) write nothing at all.  Together
+with `proposal_failed_contributes_no_handler_write` (the removed writes all belong to proposals whose messages ALL
+succeeded): state after the block = regenerated designated outcome + the handler writes of the successful proposals. -/
+theorem proposal_block_designated_is_stripped_run (env : Env) (hok : GovOuterOk env) :
+    (run env govProg).2.outer.filter (fun t => t.name != "handler") = (run env (strip 2 govProg)).2.outer ∧
+    (run env (strip 2 govProg)).1 = (run env govProg).1 := by
+  rw [(gov_block env hok).2, (gov_strip_block env hok).2, govBlock_filter, (gov_block env hok).1, (gov_strip_block env hok).1]
+  exact ⟨rfl, rfl⟩
+
+/-- … and when no proposal of the block gets all its messages through (every passed proposal has a failing message —
+first, middle or last), the state after the block IS the run of the stripped program, token for token -/
+theorem proposal_block_all_failed_is_stripped_run (env : Env) (hok : GovOuterOk env)
+    (hfail : ∀ p, p < env.iters 1 0 → env.cond "EndBlocker: passes #2" p = true → env.ok "proposal.GetMsgs" p = true →
+      ¬ GovAllOkP env p (env.iters 2 p)) :
+    (run env govProg).2.outer = (run env (strip 2 govProg)).2.outer := by
+  rw [(gov_block env hok).2, (gov_strip_block env hok).2, govBlock_failed env _ hfail]
+
+/-- **IBC receive, every path, WITHOUT assuming a synchronous acknowledgement and WITHOUT assuming that
+`WriteAcknowledgement` succeeds**: (a) the callback hands back no acknowledgement (asynchronous): everything is
+committed and no acknowledgement is written; (b) `WriteAcknowledgement` fails: `RecvPacket` returns the error (the
+relayer's transaction reverts as a whole); (c) otherwise exactly the designated outcome (application or follow-up
+failed at any point: bookkeeping + UNSUCCESSFUL acknowledgement only) or everything + a successful acknowledgement.
+`hcons` is not an assumption about fxcore but consistency of `Env`, which reads one Go value twice (`ack == nil`,
+`ack.Success()`): a nil acknowledgement is not an error acknowledgement. -/
+theorem ibc_recv_outcome_total_any (env : Env) (hp : NoPanic env) (hr : ibcReached env)
+    (hcons : asyncAck env → ¬ (ibcAppFails env ∨ ibcHookFails env)) :
+    IbcOutcomeA env (run env recvPacketProg) :=
+  ibc_total_any env hp hr hcons
+
+/-- a failing `WriteAcknowledgement` is not swallowed -/
+theorem ibc_recv_ack_write_failure_propagates (env : Env) (hp : NoPanic env) (hr : ibcReached env)
+    (hsync : ¬ asyncAck env) (hw : env.ok "k.ChannelKeeper.WriteAcknowledgement" 0 = false) :
+    (run env recvPacketProg).1 = .ret false := by
+  rcases ibc_total_any env hp hr (fun h => absurd h hsync) with ⟨h, _⟩ | ⟨_, _, h⟩ | ⟨_, h, _⟩
+  · exact absurd h hsync
+  · exact h
+  · simp [hw] at h
+
+/-- **the fx middleware cannot produce an asynchronous acknowledgement**: every `return` of the callback as the
+middleware composes it hands back either a freshly constructed error acknowledgement or the transfer application's own
+acknowledgement AFTER `Success()` has been called on it (a nil interface would have panicked there) — never `nil`.
+Regenerated: a new `return nil` (or an early `return ack`) in `IBCMiddleware.OnRecvPacket` breaks this proof. -/
+theorem callback_never_returns_nil :
+    retsOf "cbs.OnRecvPacket" recvPacketProg =
+      [.fail "channeltypes.NewErrorAcknowledgement", .fail "channeltypes.NewErrorAcknowledgement", .var ⟨"ack", 5⟩,
+       .fail "channeltypes.NewErrorAcknowledgement", .var ⟨"ack", 5⟩] ∧
+    callsOn 2 recvPacketProg = ["im.IBCModule.OnRecvPacket", "k.crossChainKeeper.IBCCoinToEvm", "k.evmKeeper.CallEVM"] := by
+  decide
+
+end Round4
 
 /-! ## non-vacuity -/
 
@@ -699,6 +761,24 @@ example : (run (vmErr envOk "k.evmKeeper.CallEVM" .invalidOpcode) (strip 1 execu
 example : (run (failAt envOk "k.crossChainKeeper.IBCCoinToEvm" 0) (strip 2 recvPacketProg)).2.outer = ibcDesignated := by decide
 example : toleratedSites.length > 30 := by decide
 end Round3Examples
+
+
+section Round4Examples
+open FxVerif.Model.C18P FxVerif.Proofs.C18P FxVerif.Proofs.C18T FxVerif.Proofs.C18R4 FxVerif.Model.C18Inv
+/-- the callback hands back no acknowledgement -/
+def envAsync : Env := { envOk with cond := fun t i => t == "RecvPacket: ack == nil" || envOk.cond t i }
+example : (run envAsync recvPacketProg).1 = .ret true ∧ (run envAsync recvPacketProg).2.outer = ibcAsync envAsync := by decide
+example : (run (failAt envOk "k.ChannelKeeper.WriteAcknowledgement" 0) recvPacketProg).1 = .ret false := by decide
+-- a block of three proposals, the middle one failing at its last message: stripped run = real run without handler writes
+example : ((run (failAt envOk "handler" 12) govProg).2.outer.filter (fun t => t.name != "handler")) =
+    (run (failAt envOk "handler" 12) (strip 2 govProg)).2.outer := by decide
+-- every proposal fails (each at another index, one by a panic): the two runs coincide
+example : (run (panicAt (failAt (failAt envOk "handler" 0) "handler" 11) "handler" 22) govProg).2.outer =
+    (run (panicAt (failAt (failAt envOk "handler" 0) "handler" 11) "handler" 22) (strip 2 govProg)).2.outer := by decide
+-- the executeClaim transaction with the result-less calls flagged failing in Env: same outcome
+example : (run (failAt (failAt (vmErr envTx "k.evmKeeper.CallEVM" .outOfGas) "k.DeletePendingExecuteClaim" 0) "k.CreateBridgeAccount" 0) executeClaimTxProg).2.outer
+    = bciDesignated envTx := by decide
+end Round4Examples
 
 example : (SubStep.mk [fun (n : Nat) => n + 1, fun n => n * 2] (some 1)).ok = false := rfl
 example : (SubStep.mk [fun (n : Nat) => n + 1, fun n => n * 2] (some 1)).after 5 = 6 := rfl
